@@ -215,6 +215,12 @@ DANGLE = [
     ('default_scene', rb'(<instance_visual_scene[^>]*url="#)[^"]*"', 'DaeBrokenRefError'),
     ('surface_image', rb'(<init_from>)img\d+(</init_from>)', 'DaeBrokenRefError'),
     ('sampler_surface', rb'(<source>)surf\d+(</source>)', 'DaeBrokenRefError'),
+    # a reference into ANOTHER document whose fragment happens to be a local id: not a reference to the local object
+    ('external_geometry', rb'(<instance_geometry[^>]*url=")#', 'DaeMalformedError|DaeBrokenRefError'),
+    ('external_material', rb'(<instance_material[^>]*target=")#', 'DaeMalformedError|DaeBrokenRefError'),
+    ('external_effect', rb'(<instance_effect[^>]*url=")#', 'DaeMalformedError|DaeBrokenRefError'),
+    ('external_node', rb'(<instance_node[^>]*url=")#', 'DaeMalformedError|DaeBrokenRefError'),
+    ('external_light', rb'(<instance_light[^>]*url=")#', 'DaeMalformedError|DaeBrokenRefError'),
     # the name exists in the effect's scope but is not a surface (an earlier sampler or float parameter): still dangling
     ('sampler_surface_wrong_kind', None, 'DaeBrokenRefError'),
 ]
@@ -240,6 +246,9 @@ def _wrong_kind(data):
 def dangle(data, kind, pattern):
     if kind == 'sampler_surface_wrong_kind':
         return _wrong_kind(data)
+    if kind.startswith('external_'):
+        new, n = re.subn(pattern, rb'\1props.dae#', data, count=1)
+        return new if n else None
     if kind in ('surface_image', 'sampler_surface'):
         new, n = re.subn(pattern, rb'\1nowhere_to_be_found\2', data, count=1)
     else:
@@ -257,14 +266,14 @@ def check_dangling(data, kind, pattern, expect):
         collada.Collada(io.BytesIO(bad))
         return ('dangling-accepted:' + kind, 'a dangling %s reference loads without error' % kind)
     except Exception as e:
-        if type(e).__name__ != expect:
+        if type(e).__name__ not in expect.split('|'):
             return ('dangling-wrong-error:' + kind, 'a dangling %s reference raises %s instead of %s' % (kind, type(e).__name__, expect))
     try:
         d = collada.Collada(io.BytesIO(bad), ignore=[DaeError])
     except Exception as e:
         return ('dangling-not-ignorable:' + kind, 'a dangling %s reference cannot be ignored: %s' % (kind, type(e).__name__))
-    if 'DaeBrokenRefError' not in [type(e).__name__ for e in d.errors]:
-        return ('dangling-not-recorded:' + kind, 'a dangling %s reference was not recorded as DaeBrokenRefError' % kind)
+    if not set(expect.split('|')) & set(type(e).__name__ for e in d.errors):
+        return ('dangling-not-recorded:' + kind, 'a dangling %s reference was not recorded as %s' % (kind, expect))
     pr = identity_check(d)
     if pr:
         return ('dangling-bound:' + kind, 'with a dangling %s reference ignored the model binds a reference wrongly: %s' % (kind, pr[:3]))
@@ -286,9 +295,20 @@ def check_skin_sources(seed):
     try:
         d = collada.Collada(io.BytesIO(c19.doc_xml(c)))
     except Exception as e:
+        # the generator says this document is sound (its references all have targets): a reference error is the loader's
+        if type(e).__name__ == 'DaeBrokenRefError':
+            return ('skin-source:not-resolved', 'a controller document whose references all have targets does not load: %s (%s, %d influences)'
+                    % (e, c['kind'], len(c.get('vcounts') or c.get('targets') or [])))
         return 'skip'
     if not d.controllers:
         return 'skip'
+    if c['tree'] is not None and d.scene is not None:
+        try:
+            n = len(list(d.scene.objects('controller')))
+        except Exception as e:
+            return ('skin-source:traversal', 'traversing the controller instances raised %s' % type(e).__name__)
+        if n != len(c19.tree_paths(c['tree'])):
+            return ('skin-source:instances', 'the scene instantiates the controller %d times but %d bound controllers are yielded' % (len(c19.tree_paths(c['tree'])), n))
     ctl = d.controllers[0]
     if c['kind'] == 'skin':
         want_wj = 'ctl-wjoints' if c['wj'] is not None else 'ctl-joints'
